@@ -147,7 +147,13 @@ func registerTrailingSlashHandler(serveMux *mux.Router) {
 		slashReq.URL.Path += "/"
 		return serveMux.Match(slashReq, m)
 	}).Handler(http.HandlerFunc(func(rw http.ResponseWriter, req *http.Request) {
-		http.Redirect(rw, req, req.URL.String()+"/", http.StatusMovedPermanently)
+		// Append the slash to the path, not to the end of the URL (which may carry a query)
+		u := *req.URL
+		u.Path += "/"
+		if u.RawPath != "" {
+			u.RawPath += "/"
+		}
+		http.Redirect(rw, req, u.String(), http.StatusMovedPermanently)
 	}))
 }
 
